@@ -85,6 +85,7 @@ type world struct {
 	activeProducers    int
 	decoderPastHeader  bool
 	budgets            []budgetRec
+	tailStart          int
 }
 
 func (w *world) violate(oracle, class, site, detail string) {
@@ -301,8 +302,27 @@ func (w *world) onFailure() {
 
 type wrapParser struct{ w *world }
 
+// tailGarbage: in a totality run with a desynchronising tail, whatever the de-framer cuts out
+// of the tail is handed to the real parser without being attributed to a sent frame.
+func (w *world) tailGarbage(b []byte) (util.Message, error) {
+	w.probes.Add("tail_garbage_handed_to_parser", 1)
+	fs := &frameState{f: &Frame{Kind: "tail-garbage"}, data: append([]byte(nil), b...)}
+	return w.parseUnderBudget(b, fs)
+}
+
 func (p wrapParser) Parse(b []byte) (util.Message, error) {
 	w := p.w
+	if w.sc.Tail != "" && totalityProp(w.sc.Property) {
+		known := false
+		if len(b) >= 8 {
+			if fs := w.byXid[binary.BigEndian.Uint32(b[4:8])]; fs != nil && bytes.Equal(b, fs.data) && fs.handed == 0 {
+				known = true
+			}
+		}
+		if !known {
+			return w.tailGarbage(b)
+		}
+	}
 	if len(b) < 8 {
 		w.violate("parser-boundary", "short-input", "", fmt.Sprintf("parser received %d bytes (not a frame)", len(b)))
 		return nil, errors.New("short")
@@ -452,6 +472,9 @@ func (w *world) onDeliver(msg util.Message) {
 		return
 	}
 	fs := w.byPtr[rv.Pointer()]
+	if fs == nil && w.sc.Tail != "" && totalityProp(w.sc.Property) {
+		return // parsed from the desynchronised tail
+	}
 	if fs == nil {
 		w.violate("delivery", "foreign-message", "", fmt.Sprintf("consumer received a %T that the parser never returned", msg))
 		return
